@@ -29,6 +29,8 @@ func runC05(p *core.Prog, r *core.Report) {
 	afterFailureRule(p, r, "C05.R7")
 	// the layout upload writes into a file nobody else can have open: a temp file with a fresh name (shared with C07.R1)
 	c07R1(p, r, "C05.R8")
+	// a connection reset in the middle of the session is retried, not answered by giving up the only host (shared with C12.R10)
+	transportRetryRule(p, r, "C05.R9")
 }
 
 // afterFailureRule: when the last upload step failed, the upload is over. The function cancels the
